@@ -17,20 +17,24 @@ class ScanError(ValueError):
 
 
 class _Sc:
-    def __init__(self, text):
+    def __init__(self, text, lenient=False):
         self.t = text
         self.i = 0
         self.n = len(text)
+        # lenient: commas are accepted wherever white space is (the library's documented tokenisation:
+        # one separator class for both); strict: the SVG 2 EBNF
+        self.ws = WSP + "," if lenient else WSP
+        self.lenient = lenient
 
     def wsp(self):
-        while self.i < self.n and self.t[self.i] in WSP:
+        while self.i < self.n and self.t[self.i] in self.ws:
             self.i += 1
 
     def comma_wsp(self):
         """optional comma_wsp; returns True when at least one char was consumed"""
         j = self.i
         self.wsp()
-        if self.i < self.n and self.t[self.i] == ",":
+        if not self.lenient and self.i < self.n and self.t[self.i] == ",":
             self.i += 1
             self.wsp()
         return self.i > j
@@ -80,17 +84,26 @@ class _Sc:
         return None
 
 
-def scan(text):
-    s = _Sc(text)
+def scan_prefix(text, fragment=False, lenient=False):
+    """longest valid prefix of arbitrary text.
+
+    returns (prog, error_position or None, partial): prog holds every complete command and, for the command in
+    which the error occurred, its complete argument groups; `partial` is True when the last command ended in a
+    closepath that replaced more than the final coordinate pair (allowed by the SVG 2 EBNF, semantics not
+    pinned by its prose - callers do not compare that command).  With fragment=True the data may begin with
+    any command (the library's path-fragment extension).
+    """
+    s = _Sc(text, lenient)
     prog = []
     s.wsp()
     first = True
+    partial = False
     while s.i < s.n:
         L = s.peek()
-        if L == "" or L.lower() not in NARGS:
-            raise ScanError(s.i, "command letter expected", prog)
-        if first and L not in "Mm":
-            raise ScanError(s.i, "path data must begin with a moveto", prog)
+        if L == "" or L.lower() not in NARGS or ord(L) > 127:
+            return prog, s.i, partial
+        if first and L not in "Mm" and not fragment:
+            return prog, s.i, partial
         first = False
         s.i += 1
         low = L.lower()
@@ -101,33 +114,36 @@ def scan(text):
             continue
         s.wsp()
         need = NARGS[low]
+        err = None
         while True:
             g = []
             closing = False
             for k in range(need):
+                save = s.i
                 if k > 0 or com["g"]:
-                    save = s.i
                     sepd = s.comma_wsp()
                 else:
                     sepd = True
-                    save = s.i
                 if low == "a" and k in (3, 4):
-                    if k == 3 and not sepd:
-                        raise ScanError(s.i, "separator required before the large-arc flag", prog)
-                    v = s.flag()
+                    v = s.flag() if (k == 4 or sepd) else None
                 else:
                     v = s.number()
                 if v is None:
-                    # segment-completing closepath in place of the final pair?
-                    zok = s.peek() in ("z", "Z") and low not in "mhv" and k == need - 2 and (low not in "lt" or not com["g"])
-                    if zok:
-                        closing = True
-                        break
+                    if s.peek() in ("z", "Z") and s.peek() != "" and low not in "mhv":
+                        if k == need - 2 and (low not in "lt" or not com["g"]):
+                            closing = True
+                            break
+                        if low in "csq" and k % 2 == 0 and not (k == 0 and com["g"]):
+                            closing = True
+                            partial = True
+                            break
                     if k == 0 and com["g"]:
                         s.i = save
                         g = None
                         break
-                    raise ScanError(s.i, "number expected", prog)
+                    err = s.i
+                    g = None
+                    break
                 g.append(v)
             if g is None:
                 break
@@ -135,9 +151,26 @@ def scan(text):
             if closing:
                 s.i += 1
                 com["z"] = True
+                if partial:
+                    com["partial"] = True
                 break
+        if err is not None:
+            if com["g"]:
+                prog.append(com)
+            return prog, err, partial
         if not com["g"]:
-            raise ScanError(s.i, "arguments expected", prog)
+            return prog, s.i, partial
         prog.append(com)
+        if partial:
+            # what follows a partially completed command is not compared
+            s.wsp()
+            return prog, None if s.i >= s.n else s.i, True
         s.wsp()
+    return prog, None, partial
+
+
+def scan(text):
+    prog, err, partial = scan_prefix(text)
+    if err is not None or partial:
+        raise ScanError(err if err is not None else len(text), "not conforming", prog)
     return prog
